@@ -56,9 +56,9 @@ def to_term(v):
     if isinstance(v, bool):
         return {'k': 'other', 'r': c.__name__}
     if isinstance(v, int):
-        return {'k': 'intS', 'n': num_id(int(v))}
+        return {'k': 'intS', 'n': num_id(int.__int__(v))}        # the stored number, whatever __int__ says (D40)
     if isinstance(v, float):
-        return {'k': 'floatS', 'n': num_id(float(v)), 'r': repr(float(v))}
+        return {'k': 'floatS', 'n': num_id(float.__float__(v)), 'r': repr(float.__float__(v))}
     if isinstance(v, str):
         return {'k': 'strS', 's': str.__str__(v)}
     if isinstance(v, list):
